@@ -27,6 +27,7 @@ TraceInit ==
     /\ lock = None
     /\ pc = [p \in Procs |-> "idle"] /\ root = [p \in Procs |-> None]
     /\ stack = [p \in Procs |-> <<>>] /\ ret = [p \in Procs |-> None]
+    /\ added = [p \in Procs |-> {}]
     /\ calls0 = [p \in Procs |-> <<>>] /\ calls = calls0 /\ results = [p \in Procs |-> <<>>]
     /\ hist = <<>> /\ bad = FALSE
     /\ l = 1
@@ -49,7 +50,7 @@ Arrive ==
     /\ LET p == Ev.g IN
          /\ p \in Procs
          /\ \/ (\E t \in Types : FullName(t) = Ev.key) /\ Ev.point = "enter" /\ Begin(p, TypeOfKey(Ev.key))
-            \/ Step(p) /\ pc[p] \notin {"retOk", "retUnlinked"}
+            \/ Step(p) /\ pc[p] \notin {"retOk", "retUnlinked", "retErr"}
          /\ Label(pc'[p]) = Ev.point
          /\ KeyAfter(p) = Ev.key
     /\ l' = l + 1
@@ -66,6 +67,7 @@ Reset ==
     /\ lock' = None
     /\ pc' = [p \in Procs |-> "idle"] /\ root' = [p \in Procs |-> None]
     /\ stack' = [p \in Procs |-> <<>>] /\ ret' = [p \in Procs |-> None]
+    /\ added' = [p \in Procs |-> {}]
     /\ calls0' = [p \in Procs |-> <<>>] /\ calls' = calls0' /\ results' = [p \in Procs |-> <<>>]
     /\ hist' = <<>> /\ bad' = FALSE
     /\ l' = l + 1
